@@ -1,0 +1,17 @@
+//go:build verif
+
+package server
+
+import (
+	"rcproxy/core"
+	"rcproxy/core/codec"
+)
+
+// VerifRoute exposes listenServer.route to the external harness (add-only, tag verif).
+func VerifRoute(h core.EventHandler, t codec.Command, slot int32) (string, bool) {
+	ls := h.(*listenServer)
+	return ls.route(&core.Msg{Type: t}, slot)
+}
+
+// VerifAuthCmd returns the AUTH command built by OnBoot.
+func VerifAuthCmd() string { return authCmd }
